@@ -39,6 +39,8 @@ def build(backend, tier):
         "index1": (f"{S}[1].pt()", [f"{S}.Count() > 1"]),
         "index2": (f"{S}[2].nTrk()", [f"{S}.Count() > 2"]),
         "first-tags-first": (f"{S}.First().tags().First()", []),
+        "first-of-constant": (f"{S}.Where(lambda j: j.pt() > 1).Select(lambda j: 1).First()", [f"{S}.Where(lambda j: j.pt() > 1).Count() > 0"]),
+        "first-of-float-constant": (f"{S}.Select(lambda j: 2.5).First()", [f"{S}.Count() > 0"]),
         "first-link": (f"{S}.First().link().pt()", []),
     }
     weak_guards = [f"{S}.Count() > 0", f"{S}.Count() > 1", f"{T}.Count() > 0", f"{S}.Count() >= 0", f"{S}.Count() == 0"]
@@ -46,6 +48,8 @@ def build(backend, tier):
         add(f"bare:{name}", f"ds.Select(lambda e: {p})")
         add(f"with-total:{name}", f"ds.Select(lambda e: ({S}.Count(), {p}))")
         add(f"total-first:{name}", f"ds.Select(lambda e: ({p}, {S}.Count()))")
+        add(f"vector-then-partial:{name}", f"ds.Select(lambda e: ({T}.Select(lambda k: k.pt()), {p}))")
+        add(f"partial-then-vector:{name}", f"ds.Select(lambda e: ({p}, {T}.Select(lambda k: k.pt())))")
         add(f"if-test:{name}", f"ds.Select(lambda e: (1 if {p} > 0 else 2))")
         add(f"if-test-tuple:{name}", f"ds.Select(lambda e: ((1 if {p} > 0 else 2), {S}.Count()))")
         add(f"if-test-arith:{name}", f"ds.Select(lambda e: (1 if {p} > 0 else 2) + {S}.Count())")
@@ -68,6 +72,7 @@ def build(backend, tier):
         "parts-first-where": ("j.parts().Where(lambda p: p.pt() > 0).First().pt()", ["j.parts().Where(lambda p: p.pt() > 0).Count() > 0"]),
         "link": ("j.link().pt()", (["isNonnull(j.link())"] if a.has_nonnull else [])),
         "parts-first-tags-first": ("j.parts().First().tags().First()", []),
+        "tags-first-of-constant": ("j.tags().Where(lambda t: t > 0.5).Select(lambda t: 1).First()", ["j.tags().Where(lambda t: t > 0.5).Count() > 0"]),
     }
     el_weak = ["j.pt() > 1", "j.tags().Count() > 0", "j.parts().Count() > 0", "j.nTrk() >= 0"]
     for name, (p, good) in el_partials.items():
